@@ -32,7 +32,17 @@ def build(case, override=None):
     names = [n for n, *_ in case["nodes"]]
     edges = [(f"{names[s]}/op/x", f"{names[t]}/op/r_in", None, {"weight": float(override.get(("w", j), Fr(w)))})
              for j, (s, t, w) in enumerate(case["edges"])]
-    return CircuitTemplate(name="base", path=None, nodes=nodes, edges=edges)
+    c = CircuitTemplate(name="base" if not case.get("hier") else "flat", path=None, nodes=nodes, edges=edges)
+    # hier = 1 | 2: the base circuit is itself hierarchical (inputs there need repair D89 = D30)
+    for lvl, nm in zip(reversed(prefix(case)), ["mid", "base"][-len(prefix(case)):] if prefix(case) else []):
+        c = CircuitTemplate(name=nm, path=None, circuits={lvl: c})
+    return c
+
+def prefix(case):
+    return [[], ["s"], ["m", "s"]][case.get("hier", 0)]
+
+def pre(case):
+    return "".join(x + "/" for x in prefix(case))
 
 def targets(case):
     """key -> list of ("k"|"c"|"w", index)"""
@@ -69,18 +79,18 @@ def impl(case):
     pmap = {}
     for key, kind, spec in case["pmap"]:
         if kind == "nodes":
-            pmap[key] = {"nodes": list(spec["nodes"]), "vars": list(spec["vars"])}
+            pmap[key] = {"nodes": [pre(case) + n for n in spec["nodes"]], "vars": list(spec["vars"])}
         else:
-            pmap[key] = {"edges": [(f"{names[s]}/op/x", f"{names[t]}/op/r_in") for s, t in spec["edges"]], "vars": ["weight"]}
+            pmap[key] = {"edges": [(f"{pre(case)}{names[s]}/op/x", f"{pre(case)}{names[t]}/op/r_in") for s, t in spec["edges"]], "vars": ["weight"]}
     grid = {key: [float(Fr(v)) for v in vals] for key, vals in case["grid"]}
     if case.get("df_index") is not None:          # the grid as a DataFrame whose integer index is a permutation
         import pandas as pd
         grid = pd.DataFrame(grid, index=list(case["df_index"]))
-    outputs = {k: p for k, p in case["outputs"]}
+    outputs = {k: pre(case) + p for k, p in case["outputs"]}
     # extrinsic inputs to the r_in variable of some nodes (grid_search prefixes them with 'all/': one series for every copy;
     # the assembled circuit has hierarchy depth 1, so the loud class D30 -- depth >= 2 -- is not reached from a flat base)
     def inputs():
-        d = {f"{names[i]}/op/r_in": np.asarray([float(Fr(v)) for v in vals]) for i, vals in case.get("inputs", [])}
+        d = {f"{pre(case)}{names[i]}/op/r_in": np.asarray([float(Fr(v)) for v in vals]) for i, vals in case.get("inputs", [])}
         return d or None
     pyr.reset_pyrates()
     try:
@@ -125,7 +135,10 @@ def gen_case(rng):
     rng.shuffle(pairs)
     edges = [[s, t, dy(rng, -1, 1)] for s, t in pairs[:rng.randint(1, min(3, len(pairs)))]]
     # disjoint target sets for the keys
-    pool = [("k", i) for i in range(nn)] + [("c", i) for i in range(nn)] + [("w", j) for j in range(len(edges))]
+    hier = rng.choice([1, 1, 2]) if rng.random() < 0.3 else 0      # the base circuit is itself hierarchical (1 or 2 extra levels)
+    pool = [("k", i) for i in range(nn)] + [("c", i) for i in range(nn)]
+    if not hier or rng.random() < 0.12:       # edges declared inside a sub-circuit cannot be swept (known loud class): rarely
+        pool += [("w", j) for j in range(len(edges))]
     rng.shuffle(pool)
     nkeys = rng.randint(1, 3)
     pmap, grid = [], []
@@ -171,6 +184,8 @@ def gen_case(rng):
     case = dict(nodes=nodes, edges=edges, pmap=pmap, grid=grid, permute=permute, outputs=outputs, vectorize=rng.random() < 0.6)
     if rng.random() < 0.5:                       # extrinsic input series (non-constant, dyadic) on 1-2 nodes
         case["inputs"] = [[i, [dy(rng, -2, 2, 2) for _ in range(int(round(T_END / DT)))]] for i in rng.sample(range(nn), rng.randint(1, min(2, nn)))]
+    if hier:
+        case["hier"] = hier
     if rng.random() < 0.45:                      # two nodes with identical values, held as one shared NodeTemplate object
         i, j = rng.sample(range(nn), 2)
         nodes[j][1:] = nodes[i][1:]
@@ -208,7 +223,7 @@ Definition col_eqb (a b : col) := leqb String.eqb (fst a) (fst b) && leqb qeqb (
 (* observed: None = ValueError;  table rows, index names, columns of the DataFrame *)
 Definition observed := option (list (list Qc) * list string * list col).
 Record gcase := { base : circ; pm : list (list target); vals : list (list Qc); perm : bool; steps : nat;
-                  nodes : list string; reqs : list request; ob : observed; labs : option (list nat); vec : bool;
+                  nodes : list string; reqs : list request; ob : observed; labs : option (list nat); vec : bool; pre : list string;
                   sep_grid : list col; sep_runs : list col }.
 Definition dt : Qc := mkq 1 8.
 Definition cname (r : nat) : string := "base_" ++ String (Ascii.ascii_of_nat (48 + r / 10)) (String (Ascii.ascii_of_nat (48 + r mod 10)) "").
@@ -217,16 +232,17 @@ Definition opnode : node := [("op", ["x"; "k"; "c"; "r_in"])].
 (* the index label of row r: r, or the DataFrame's own integer label when the grid is passed as a DataFrame *)
 Definition row_labels (c : gcase) (R : nat) : list nat := match labs c with Some l => l | None => seq 0 R end.
 Definition union_tree (c : gcase) (R : nat) : tree :=
-  Circ (map (fun r => (cname' r, Circ (map (fun n => (n, Leaf opnode)) (nodes c)))) (row_labels c R)).
+  Circ (map (fun r => (cname' r, fold_right (fun lvl t => Circ [(lvl, t)]) (Circ (map (fun n => (n, Leaf opnode)) (nodes c))) (pre c)))
+           (row_labels c R)).
 Fixpoint index_of (s : string) (l : list string) : nat := match l with [] => 0 | x :: l' => if String.eqb s x then 0 else S (index_of s l') end.
 (* the trajectory of variable [cname; node; op; x] taken from per-time / per-row / per-node states *)
 Definition column_of (c : gcase) (R : nat) (states : nat -> nat -> nat -> Qc) (v : path) : list Qc :=
   let r := index_of (nth 0 v "") (map cname' (row_labels c R)) in
-  let i := index_of (nth 1 v "") (nodes c) in
+  let i := index_of (nth (1 + List.length (pre c)) v "") (nodes c) in
   map (fun j => states j r i) (seq 0 (steps c)).
 Definition expected (c : gcase) (rows : list (list Qc)) (states : nat -> nat -> nat -> Qc) : observed :=
   let R := List.length rows in
-  let reqs' := map (fun q : request => let '(key, (pat, ov)) := q in (key, ("all" :: pat, ov))) (reqs c) in
+  let reqs' := map (fun q : request => let '(key, (pat, ov)) := q in (key, ("all" :: pre c ++ pat, ov))) (reqs c) in
   Some (rows, map cname' (row_labels c R), map (fun lv => (fst lv, column_of c R states (fst (snd lv)))) (spec_columns (union_tree c R) [] DictForm reqs')).
 Definition obs_eqb (a b : observed) : bool :=
   match a, b with
@@ -251,10 +267,12 @@ Definition specO (c : gcase) : observed :=
 Definition okI (c : gcase) := obs_eqb (implO c) (ob c).
 Definition okS (c : gcase) := obs_eqb (specO c) (ob c).
 Definition okSep (c : gcase) := leqb col_eqb (sep_grid c) (sep_runs c).
-(* guard of the known loud class D32 (C04): with vectorize=True one input node projecting to >= 10 copies raises IndexError *)
-Definition n_rows (c : gcase) : nat := match linearize (mkq 0 1) (vals c) (perm c) with Some l => List.length l | None => 0 end.
+(* the class ">= 10 rows with an input under vectorize=True" (IndexError, D32) is repaired (D85).
+   Guard of the remaining loud class: a swept edge must be declared by the top level of the base circuit (adapt_circuit
+   looks it up with get_edge on the top level only: KeyError for an edge declared inside a sub-circuit) *)
 Definition g_fanout (c : gcase) : bool :=
-  negb (vec c && existsb (fun u => match u with [] => false | _ => true end) (uin (base c)) && Nat.leb 10 (n_rows c)).
+  negb (negb (Nat.eqb (List.length (pre c)) 0) &&
+        existsb (existsb (fun tg => match tg with TW _ => true | _ => false end)) (pm c)).
 """
 
 def cstrs(l):
@@ -274,14 +292,14 @@ def ccols(cols):
 def sep_views(case, out):
     """the same (key, row, node) -> values view of the sweep result and of the separate runs, sorted by key"""
     names = [n for n, *_ in case["nodes"]]
-    pat = {k: p.split("/")[0] for k, p in case["outputs"]}
+    pat = {k: p.split("/")[-3] for k, p in case["outputs"]}
     def norm(lab, r):
         key = lab[0]
         if len(lab) == 1:
             return [key, str(r if r is not None else 0), pat[key]]
         if r is None:                     # sweep label: key, circuit, node, op/var
-            return [key, str(out["index"].index(lab[1])), lab[2]]
-        return [key, str(r), lab[1]]
+            return [key, str(out["index"].index(lab[1])), lab[-2]]
+        return [key, str(r), lab[-2]]
     g = sorted([norm(lab, None), vals] for lab, vals in out["cols"])
     s = sorted([norm(lab, r), vals] for r, cols in enumerate(out["separate"]) for lab, vals in cols)
     return g, s
@@ -305,7 +323,7 @@ def coq_case(case, out):
         g, s = sep_views(case, out)
     return (f"{{| base := {ccirc(case)}; pm := {pm}; vals := {vals}; perm := {cbool(case['permute'])}; steps := {cnat(steps)}; "
             f"nodes := {cstrs([n for n, *_ in case['nodes']])}; reqs := {clist(reqs)}; ob := {ob}; "
-            f"vec := {cbool(case['vectorize'])}; labs := {'None' if case.get('df_index') is None else '(Some ' + clist([cnat(i) for i in case['df_index']]) + ')'}; "
+            f"vec := {cbool(case['vectorize'])}; pre := {cstrs(prefix(case))}; labs := {'None' if case.get('df_index') is None else '(Some ' + clist([cnat(i) for i in case['df_index']]) + ')'}; "
             f"sep_grid := {ccols(g)}; sep_runs := {ccols(s)} |}}")
 
 def model_compare(ctx, cases, outs, tag):
@@ -329,7 +347,7 @@ def model_outputs(ctx, case, out):
         return f"(model evaluation failed: {e})"
 
 def usable(out):
-    return isinstance(out, dict) and "err" not in out and not ("raised" in out and out["raised"] not in ("ValueError", "IndexError"))
+    return isinstance(out, dict) and "err" not in out and not ("raised" in out and out["raised"] not in ("ValueError", "KeyError"))
 
 # ---------------------------------------------------------------------------------------------- check
 def check(ctx):
@@ -346,8 +364,8 @@ def check(ctx):
     good = [i for i in range(len(cases)) if i not in crashed]
     badI, badS, badSep, gfan = model_compare(ctx, [cases[i] for i in good], [outs[i] for i in good], "main")
     badI = [good[i] for i in badI]; badSep = [good[i] for i in badSep]
-    # the loud class D32 is recognised by its exception; anything else outside the guard is judged like any other case
-    gv = {good[i]: ["input_fanout_lt_10"] for i in gfan if outs[good[i]].get("raised") == "IndexError"}
+    # the loud class is recognised by its exception; anything else outside the guard is judged like any other case
+    gv = {good[i]: ["swept_edges_declared_at_top"] for i in gfan if outs[good[i]].get("raised") == "KeyError"}
     badS = sorted(set(good[i] for i in badS) | set(badSep))
     ctx.note(f"E1: {len(cases)} sweeps, {sum(nrows(c) for c in cases)} rows; sweep-vs-Impl mismatches {len(badI)}, sweep-vs-Spec mismatches "
              f"{len(badS)} (of which sweep-vs-separate-real-runs {len(badSep)}), unusable outcomes {len(crashed)}")
@@ -356,13 +374,14 @@ def check(ctx):
         return dict(implementation_output=out, model_output=model_outputs(ctx, c, out) if usable(out) else None)
     def witness_check(f):
         out = run_impl(ctx, "c17", "impl", [f["witness"]], nworkers=1, per_case_timeout=300)[0]
-        return isinstance(out, dict) and out.get("raised") == "IndexError"
+        return isinstance(out, dict) and out.get("raised") == "KeyError"
     conclude(ctx, cases=cases, impl_out=outs, bad_spec=badS, bad_impl=badI, crashed=crashed, problem=problem, show=show,
              guard_viol=gv, witness_check=witness_check,
              spec_name="Grid.grid_spec (every row of the returned table simulated on its own) and the separate real runs",
              impl_name="Grid.grid_impl (assembled network)")
     nt = {canon(c) for c in cases if nontrivial(c)}
-    hist = dict(permuted=sum(1 for c in cases if c["permute"]), zipped=sum(1 for c in cases if not c["permute"]),
+    hist = dict(hierarchical_base=sum(1 for c in cases if c.get("hier")), hierarchical_base_with_inputs=sum(1 for c in cases if c.get("hier") and c.get("inputs")),
+                permuted=sum(1 for c in cases if c["permute"]), zipped=sum(1 for c in cases if not c["permute"]),
                 value_error=sum(1 for o in outs if isinstance(o, dict) and o.get("raised") == "ValueError"),
                 edge_keys=sum(1 for c in cases if any(k == "edges" for _, k, _ in c["pmap"])),
                 multi_target_keys=sum(1 for c in cases if any(len(t) > 1 for t in targets(c).values())),
@@ -374,7 +393,7 @@ with_inputs=sum(1 for c in cases if c.get("inputs")),
     write_evidence(ctx, evaluations=len(cases), distinct_nontrivial=len(nt),
                    rule="random linear circuits (2-3 nodes, 1-3 edges, dyadic k, c, x0, weights) x random sweeps: 1-3 keys with disjoint target "
                         "sets (node parameters op/k, op/c on 1-3 nodes, both vars per key, edge weights on 1-2 edges), equal-length or permuted "
-                        "grids (a few of unequal length without permute -> ValueError), zipped grids also passed as a DataFrame whose integer index "
+                        "grids, base circuit flat or wrapped in 1-2 further hierarchy levels (a few of unequal length without permute -> ValueError), zipped grids also passed as a DataFrame whose integer index "
                         "is a permutation, half of the sweeps with non-constant extrinsic input series on 1-2 nodes (also on nodes with incoming edges), nodes with identical values held as one shared NodeTemplate object, outputs by node name or 'all', vectorize on/off; "
                         "non-trivial = >= 2 rows; distinct = distinct canonical JSON",
                    samples=[cases[0] if cases else None],
@@ -382,6 +401,5 @@ with_inputs=sum(1 for c in cases if c.get("inputs")),
                               sweep_vs_separate_runs_mismatches=len(badSep)),
                    trusted_base=["float64 Euler on dyadic data (dt = 1/8, 8 steps, quarter-integer parameters) is exact (checked: every value is compared as an exact rational)",
                                  "the separate runs use circuits built directly from the values of the returned table (not adapt_circuit)"],
-                   assumptions=["inputs= is exercised on flat base circuits only: the assembled circuit then has hierarchy depth 1; a base circuit that is itself "
-                                "hierarchical gives depth >= 2 and any input raises AttributeError (D30, recorded under C08)",
+                   assumptions=["inputs= is exercised on flat and on hierarchical base circuits (1-2 extra levels; repair D89 of D30)",
                                 "target sets of different grid keys are disjoint", "the model's node dynamics are linear (x' = -k x + c + weighted inputs)"])
